@@ -8,7 +8,8 @@
 //! `server::Connection::accept`), `clo` (the driver calls `client::Connection::poll_close`) or
 //! `idl` (the driver polls the future of `client::Connection::wait_idle`), `<err>` = `I<code>.<tag>` (`InternalConnectionError`),
 //! `Qa<code>` (`ApplicationClose`), `Qt` (`Timeout`), `Qi.<tag>` (`InternalError`), `Qu.<tag>`
-//! (`Undefined`), and `<label>` = `D.poll | D.pce | D.det:<err> | D.park | S<k>`.
+//! (`Undefined`), and `<label>` = `D.poll | D.pce | D.det:<err> | D.park | D.shut | S<k>` (`D.shut`: the driver calls
+//! the real `shutdown()` — mode `pce`: its first statement `check_connection_error` — while it is not inside a poll).
 //!
 //! Every task runs on its own OS thread against one real `h3::server::Connection` (over the
 //! in-memory transport of `sim.rs`) and its real `Arc<SharedState>`; the threads are parked at
@@ -159,6 +160,9 @@ enum DOp {
     Pce,
     Det(Err),
     Park,
+    /// a `shutdown()` call made while the driver is not inside a poll (mode `pce`: its first
+    /// statement, `ConnectionInner::check_connection_error`, called directly)
+    Shut,
 }
 
 #[derive(Clone, Debug)]
@@ -469,6 +473,10 @@ fn driver_thread_pce(ctl: Arc<Ctl>, flag: Arc<Flag>, tx: mpsc::Sender<Arc<Shared
                 "poll".to_string()
             }
             Cmd::Drv(DOp::Park) => "park".to_string(),
+            Cmd::Drv(DOp::Shut) => match conn.inner.check_connection_error() {
+                Ok(()) => "ok".to_string(),
+                Err(e) => format!("E:{}", show_cerr(&e)),
+            },
             Cmd::Drv(DOp::Pce) => {
                 let mut cx = Context::from_waker(&waker);
                 match conn.inner.poll_connection_error(&mut cx) {
@@ -568,9 +576,30 @@ fn driver_thread_fut(mode: Mode, ctl: Arc<Ctl>, flag: Arc<Flag>, tx: mpsc::Sende
     ME.with(|m| *m.borrow_mut() = Some(Me { ctl: ctl.clone(), id: 0, acc: true, rounds: 0, net: Some(net.clone()) }));
     install_gate(&ctl, &net, client);
     'outer: loop {
-        // idle: only `D.poll` is sent here
+        // idle: only `D.poll` and `D.shut` are sent here
         match ctl.wait_grant(0) {
             Cmd::Drv(DOp::Poll) => {}
+            Cmd::Drv(DOp::Shut) => {
+                // the real `shutdown()` of the role's driver, polled once (it can wait only for write
+                // credit on the control stream, which this transport never withholds)
+                let r = match &mut drv {
+                    Drv::Server(conn) => {
+                        let mut f: Pin<Box<dyn Future<Output = _> + '_>> = Box::pin(conn.shutdown(0));
+                        crate::sim::poll_once(&mut f)
+                    }
+                    Drv::Client(conn, _) => {
+                        let mut f: Pin<Box<dyn Future<Output = _> + '_>> = Box::pin(conn.shutdown(0));
+                        crate::sim::poll_once(&mut f)
+                    }
+                };
+                let out = match r {
+                    Poll::Pending => "shut-pending".to_string(),
+                    Poll::Ready(Ok(())) => "ok".to_string(),
+                    Poll::Ready(Err(e)) => format!("E:{}", show_cerr(&e)),
+                };
+                ctl.report(out, Some(closes_of(&net)));
+                continue 'outer;
+            }
             _ => break 'outer,
         }
         flag.woken.store(false, Ordering::SeqCst);
@@ -630,6 +659,7 @@ fn parse_label(s: &str) -> Option<Label> {
         "D.poll" => Some(Label::D(DOp::Poll)),
         "D.pce" => Some(Label::D(DOp::Pce)),
         "D.park" => Some(Label::D(DOp::Park)),
+        "D.shut" => Some(Label::D(DOp::Shut)),
         _ => Some(Label::D(DOp::Det(parse_err(s.strip_prefix("D.det:")?)?))),
     }
 }
@@ -712,7 +742,7 @@ fn run_case(mode: Mode, specs: Vec<Vec<Err>>, labels: Vec<Label>) -> String {
             }
             Label::D(op) => {
                 let enabled = match (pc, op) {
-                    (Pc::Idle, DOp::Poll) => true,
+                    (Pc::Idle, DOp::Poll) | (Pc::Idle, DOp::Shut) => true,
                     (Pc::Started, DOp::Pce) | (Pc::Started, DOp::Det(_)) => true,
                     (Pc::Armed, DOp::Pce) | (Pc::Armed, DOp::Det(_)) | (Pc::Armed, DOp::Park) => true,
                     (Pc::Mid, DOp::Pce) => true,
@@ -739,8 +769,15 @@ fn run_case(mode: Mode, specs: Vec<Vec<Err>>, labels: Vec<Label>) -> String {
                             pc = Pc::Idle;
                             parked = true;
                         }
+                        // `shutdown()` on a connection without an error
+                        "ok" if *op == DOp::Shut => {}
                         x if x.starts_with("E:") => {
                             pc = Pc::Idle;
+                            // a call that reports has met the error: the driver's last call did not
+                            // answer `Pending`
+                            if *op == DOp::Shut {
+                                parked = false;
+                            }
                             drv_last = x.to_string();
                             let e = x[2..].to_string();
                             if !errs.contains(&e) {
@@ -755,6 +792,7 @@ fn run_case(mode: Mode, specs: Vec<Vec<Err>>, labels: Vec<Label>) -> String {
                         let ok = match op {
                             DOp::Poll => r == "poll",
                             DOp::Park => r == "park",
+                            DOp::Shut => r == "ok" || r.starts_with("E:"),
                             DOp::Det(_) => r.starts_with("E:"),
                             DOp::Pce => r == "mid" || r == "pend" || r.starts_with("E:"),
                         };
@@ -813,7 +851,77 @@ fn run_case(mode: Mode, specs: Vec<Vec<Err>>, labels: Vec<Label>) -> String {
     out.join(" ")
 }
 
+/// `cell dg <first error | -> <transport error>`: the datagram handle of the sibling crate
+/// (`h3_datagram::datagram_handler::DatagramSender`, a `ConnectionState` implementor bound to a request
+/// stream id) on a real `server::Connection`: optionally a request handle has raised `first` before; the
+/// transport then fails every call with `<transport error>`; `send_datagram` is called, then `accept()`
+/// is polled once.  Output: `cell=<cell> dg=<what the datagram handle reports> drv=<what the driver reports>`.
+fn run_dg(first: Option<Err>, q: Err) -> String {
+    use h3_datagram::datagram_handler::HandleDatagramsExt;
+    let net = Net::new(true);
+    let mut conn = build_server(&net);
+    if let Some(e) = &first {
+        let mut h = Handle { shared: conn.inner.shared.clone() };
+        let _ = raise(&mut h, e);
+    }
+    net.borrow_mut().conn_err = Some(quic_of(&q));
+    let mut snd = conn.get_datagram_sender(h3::quic::StreamId::try_from(0u64).unwrap());
+    let dg = match snd.send_datagram(Bytes::from_static(b"x")) {
+        Ok(()) => "ok".to_string(),
+        // the variant is `#[non_exhaustive]`: an application cannot take the `ConnectionError` out of it;
+        // what it can see is the Debug / Display rendering
+        Err(e) => {
+            let d = format!("{:?}", e);
+            let inner = d.strip_prefix("ConnectionError(").and_then(|r| r.strip_suffix(')')).unwrap_or("?");
+            if inner == "Timeout" {
+                "T".to_string()
+            } else if let Some(r) = inner.strip_prefix("Remote(").and_then(|r| r.strip_suffix(')')) {
+                if r == "Timeout" {
+                    "Rt".to_string()
+                } else if let Some(c) = r.strip_prefix("ApplicationClose(").and_then(|c| c.strip_suffix(')')).and_then(code_value) {
+                    format!("Ra{}", c)
+                } else if let Some(m) = r.strip_prefix("InternalError(\"").and_then(|m| m.strip_suffix("\")")) {
+                    format!("Ri.{}", tag_of(m))
+                } else if r.starts_with("Undefined(") {
+                    let t = r.trim_start_matches("Undefined(Tagged(").trim_end_matches("))");
+                    format!("Ru.{}", t)
+                } else {
+                    format!("R?{}", r.replace(' ', "_"))
+                }
+            } else if let Some(r) = inner.strip_prefix("Local { error: Application { code: ") {
+                // `Local { error: Application { code: NAME, reason: "m1" } }`
+                let code = r.split(',').next().and_then(code_value);
+                let tag = tag_of(r.split("reason: \"").nth(1).and_then(|x| x.split('"').next()).unwrap_or("?"));
+                match code {
+                    Some(c) => format!("L{}.{}", c, tag),
+                    None => "L?".to_string(),
+                }
+            } else {
+                format!("?{}", d.replace(' ', "_"))
+            }
+        }
+    };
+    let cell = conn.inner.shared.get_conn_error().map(|e| show_origin(&e)).unwrap_or_else(|| "-".into());
+    let drv = {
+        let mut fut = Box::pin(conn.accept());
+        match crate::sim::poll_once(&mut fut) {
+            Poll::Pending => "pend".to_string(),
+            Poll::Ready(Ok(_)) => "ok".to_string(),
+            Poll::Ready(Err(e)) => show_cerr(&e),
+        }
+    };
+    format!("cell={} dg={} drv={}", cell, dg, drv)
+}
+
 pub fn handle(w: &[&str]) -> String {
+    if w.len() == 4 && w[0] == "cell" && w[1] == "dg" {
+        let first = if w[2] == "-" { None } else { match parse_err(w[2]) { Some(e) => Some(e), None => return "bad-op".into() } };
+        let Some(q) = parse_err(w[3]) else { return "bad-op".into() };
+        if matches!(q, Err::Internal(..)) {
+            return "bad-op".into();
+        }
+        return guarded(move || run_dg(first, q));
+    }
     if w.len() < 3 || (w[0] != "cell" && w[0] != "cellmv") {
         return "bad-op".into();
     }
